@@ -17,6 +17,10 @@ def menu():
         class C19Inner(xo.HybridClass):
             _xofields = {"a": xo.Int64, "b": xo.Float64[:]}
 
+        class C19InnerR(xo.HybridClass):  # a nested class with a RENAMED field
+            _xofields = {"a": xo.Int64, "v": xo.Float64[3]}
+            _rename = {"a": "alpha"}
+
         class C19InnerS(xo.HybridClass):  # every field has a computable default
             _xofields = {"a": xo.Int64, "v": xo.Float64[3]}
 
@@ -31,6 +35,8 @@ def menu():
                     values=[("zero", [0.0, 0.0, 0.0]), ("diff", [4.0, 5.5, 6.0]), ("near", [1.5, 2.25, 3.0]), ("one-off", [1.0, 2.0, 3.5])]),
             da=dict(ftype=xo.Int32[:], defaults=[("none", {}, None), ("default", dict(default=[4, 5]), [4, 5]), ("factory", dict(default_factory=lambda: xo.Int32[:]([9])), [9])], values=[("empty", []), ("diff", [1, 2, 3]), ("zero", [0]), ("extends-default", [4, 5, 6]), ("prefix-of-default", [4])]),
             hy=dict(ftype=C19Inner, defaults=[("none", {}, None)], values=[("diff", dict(a=3, b=[1.0, 2.0])), ("empty", dict(a=0, b=[]))]),
+            # nested object of a class with a renamed field, given as an object (the dictionary of the holder then holds python names)
+            hr=dict(ftype=C19InnerR, defaults=[("none", {}, None)], values=[("diff", lambda: C19InnerR(alpha=3, v=[4.0, 5.0, 6.0])), ("zero", lambda: C19InnerR(alpha=0, v=[0.0, 0.0, 0.0]))]),
             # a nested class whose holder declares ITS OWN default for the nested object (two levels of defaults)
             hs=dict(ftype=C19InnerS, defaults=[("none", {}, None), ("default", dict(default={"a": 5, "v": [1.0, 2.0, 3.0]}), dict(a=5, v=[1.0, 2.0, 3.0]))],
                     values=[("diff", dict(a=3, v=[4.0, 5.0, 6.0])), ("inner-class-defaults", dict(a=0, v=[0.0, 0.0, 0.0])), ("half", dict(a=5, v=[0.0, 0.0, 0.0]))]),
@@ -49,7 +55,7 @@ def describe(tier):
         "declared default is absent from the dictionary iff its value equals that default; (a') class families {base, derived class declaring the field again "
         "with another default, derived class inheriting the declaration} serialised in all 6 orders: each class elides exactly its own default and round-trips; then a class is defined from {'pre': Int64, **Base._xofields}: dictionaries made before still rebuild equal objects and the new class round-trips. (b) every reference-free type of the universe in which every "
         "array at any depth is one-dimensional x 3 value alphabets: T(x._to_json()) equals x.",
-        bounds=dict(field_kinds=["sc", "fl", "st", "sa", "da", "hy", "hs"], json_types=len(json_types(tier))),
+        bounds=dict(field_kinds=["sc", "fl", "st", "sa", "da", "hy", "hs", "hr"], json_types=len(json_types(tier))),
         assumptions=["N-D arrays are outside the property (documented as unsupported by _to_json)"],
         must_fire=["to_dict", "from_dict", "to_json"],
     )
@@ -82,7 +88,7 @@ def shards(tier, seed):
     common.quiet()
     fv = field_variants()
     out = [("hyb", i) for i in range(len(fv))]
-    out += [("family", i) for i in range(len(fv)) if fv[i][3] is not None and fv[i][0] not in ("hy", "hs")]
+    out += [("family", i) for i in range(len(fv)) if fv[i][3] is not None and fv[i][0] not in ("hy", "hs", "hr")]
     out += [("json", c) for c in cons.chunk(json_types(tier), 16)]
     return out[seed % len(out):] + out[: seed % len(out)]
 
@@ -108,6 +114,9 @@ def read_hybrid(h, fields):
         if kind == "hy":
             v = dict(a=int(pv.a), b=np.asarray(pv.b).tolist())
             v2 = dict(a=int(xv.a), b=[float(xv.b[i]) for i in range(len(xv.b))])
+        elif kind == "hr":
+            v = dict(a=int(pv.alpha), v=np.asarray(pv.v).tolist())
+            v2 = dict(a=int(xv.a), v=[float(xv.v[i]) for i in range(3)])
         elif kind == "hs":
             v = dict(a=int(pv.a), v=np.asarray(pv.v).tolist())
             v2 = dict(a=int(xv.a), v=[float(xv.v[i]) for i in range(3)])
@@ -162,7 +171,7 @@ def run_hybrid(first, tier, res):
                 case = dict(part="hyb", first=first, combo=[(c[0], c[1]) for c in combo], rename=rename, values=[c[0] for c in choice])
                 kw = {}
                 for (pyname, xoname, k), (vlab, v) in zip(fields, choice):
-                    kw[pyname] = v
+                    kw[pyname] = v() if callable(v) else v
                 try:
                     h = H(**kw)
                     before = read_hybrid(h, fields)
@@ -179,7 +188,7 @@ def run_hybrid(first, tier, res):
                     continue
                 # default elision
                 for (pyname, xoname, k), (klab, dlab, dkw, dv), (vlab, v) in zip(fields, combo, choice):
-                    if dv is None or k in ("hy", "hs"):
+                    if dv is None or k in ("hy", "hs", "hr"):
                         continue  # nested objects are always written out
                     res.oracles["elision"] += 1
                     equal = veq(v, dv)
@@ -213,7 +222,7 @@ def run_hybrid(first, tier, res):
                             other = {pn: (w if not veq(w, v) else None) for (pn, xn, k), (vlab, v), cand in zip(fields, choice, vals) for w in [next((c[1] for c in cand if not veq(c[1], v)), None)]}
                             if any(w is None for w in other.values()):
                                 continue
-                            live = H(**other)
+                            live = H(**{k_: (v_() if callable(v_) else v_) for k_, v_ in other.items()})
                             kw = dict(_buffer=live._buffer, _offset=live._offset)
                         h3 = H.from_dict(d, **kw)
                         after3 = read_hybrid(h3, fields)
@@ -239,7 +248,7 @@ def run_family(first, tier, res):
     import xobjects as xo
 
     k, lab, kw, dv = field_variants()[first]
-    if dv is None or k in ("hy", "hs"):
+    if dv is None or k in ("hy", "hs", "hr"):
         return  # families are about scalar / string / array defaults
     m = menu()[k]
     other = dict(m["values"])["diff"]
